@@ -13,6 +13,7 @@ from vt import core
 from vt.main import decide
 import peggen
 import pegdump
+from translate import arpeggio_tr
 
 IMPORTS = "From TxV Require Import Core.Base Core.Show Model.PegSyntax Model.Peg Model.PegShow Proofs.PegProofs.\nOpen Scope string_scope."
 FUEL = 120
@@ -20,15 +21,20 @@ FUEL = 120
 
 # ---------------------------------------------------------------- classifier (mirror of Coq ctx_constant)
 def ctx_constant(dump):
-    """Mirror of PegProofs.ctx_constant (the class of the proved theorem; compared with Coq's own
-    evaluation on every generated grammar): no node sets ws/skipws, no eolterm, no unordered group,
-    no comment model."""
-    if dump["comments"] is not None:
+    """Mirror of PegProofs.ctx_constant (compared with Coq's own evaluation on every generated grammar):
+    no node sets ws/skipws, no eolterm, comment model absent or a single terminal."""
+    c = dump["comments"]
+    if c is not None and dump["nodes"][c]["kind"] not in ("KStr", "KRegex", "KEOF"):
         return False
     for n in dump["nodes"]:
-        if n["ws"] is not None or n["skipws"] is not None or n["eolterm"] or n["kind"] == "KUnord":
+        if n["ws"] is not None or n["skipws"] is not None or n["eolterm"]:
             return False
     return True
+
+
+def theorem_applies(dump):
+    """Hypothesis of C19_memo_safe: the grammar is in the class (any parser configuration)."""
+    return ctx_constant(dump)
 
 
 def _reach(dump, start):
@@ -143,7 +149,7 @@ def model_equiv_impl(m, t):
 
 
 def run(chk):
-    chk.prove([])
+    chk.prove([arpeggio_tr.translate])
     n, per = (700, 5) if chk.thorough else (100, 4)
     cases = gen_cases(chk, n, per)
     idx = [list(range(i, len(cases), core.NPROC)) for i in range(core.NPROC)]
@@ -178,8 +184,8 @@ def run(chk):
         if coq_cls.get(ci) != ("T" if cc else "F") or (cc and cdep):
             disagreements.append({"case": {"grammar": case["grammar"]}, "impl": "classifier ctx_constant=%s context_dependent=%s" % (cc, cdep),
                                   "model": "Coq ctx_constant = %s" % coq_cls.get(ci)})
-        chk.stat("grammars: %s" % ("ctx_constant" if cc else ("context-dependent" if cdep else (
-            "memoizable comment model" if memoizable_comment_model(d) else "other (terminal comment model / unordered group)"))))
+        chk.stat("grammars: %s" % ("in the proved class" if cc else (
+            "context-dependent" if cdep else ("memoizable comment model" if memoizable_comment_model(d) else "other"))))
         for ii, (text, run_) in enumerate(zip(case["inputs"], res["runs"])):
             if run_.get("timeout") or run_.get("unsupported"):
                 chk.stat("input skipped (timeout/unsupported)")
@@ -200,8 +206,8 @@ def run(chk):
                     disagreements.append({"case": cinfo, "impl": [t_off, t_on], "model": [mo, mn]})
                 if mo != mn:
                     chk.stat("model: memo changes outcome")
-                    if cc and not mo.startswith("A:"):
-                        # an instance of C19_memo_safe_partial evaluated on the model: cannot differ
+                    if theorem_applies(d) and not mo.startswith("A:"):
+                        # an instance of C19_memo_safe evaluated on the model: cannot differ
                         disagreements.append({"case": cinfo, "impl": [t_off, t_on], "model": [mo, mn, "theorem instance violated in the model"]})
             # glue: the textX-level outcome must be the Arpeggio-level one (acceptance and error position)
             for tt, mm in ((t_off, m_off), (t_on, m_on)):
@@ -231,7 +237,8 @@ def run(chk):
                        "ignore_case/autokwd) x inputs derived from the grammar with random layout/comments and token/character mutations; each "
                        "parsed by the real parser with memoization off and on and by the Coq interpreter on the dumped parser model; "
                        "non-trivial = accepted, or rejected after position 0; distinct by (grammar, options, input)")
-    chk.assumptions += ["tools/pegdump.py dumps the live Arpeggio parser model faithfully (fail closed on unknown node types)",
+    chk.assumptions += ["tools/translate/arpeggio_tr.py: the functions of the installed arpeggio/__init__.py that Model/Peg.v transcribes hash to the recorded values (fail closed)",
+                        "tools/pegdump.py dumps the live Arpeggio parser model faithfully (fail closed on unknown node types)",
                         "regex terminals: matched lengths supplied by Python's re for the concrete input (oracle table); theorems hold for every oracle",
                         "Arpeggio (dependency) is modelled, validated by this correspondence, not verified"]
     decide(chk, failures, disagreements)
